@@ -623,11 +623,10 @@ hwloc__xml_import_userdata(hwloc_topology_t topology,
 
   } else { /* always handle length==0 in the non-encoded case */
       const char *buffer = "";
-      if (length) {
-	ret = state->global->get_content(state, &buffer, length);
-	if (ret < 0)
-	  return -1;
-      }
+      /* also get the content when it is empty, close_content() below requires it */
+      ret = state->global->get_content(state, &buffer, length);
+      if (ret < 0)
+	return -1;
       topology->userdata_import_cb(topology, obj, name, buffer, length);
   }
 
